@@ -14,23 +14,26 @@ open Wire
 open Resp (Value)
 
 /-! ### what the code's mapping tables say (regenerated from source; struct-literal fields sorted by name,
-    because their order is irrelevant in Rust - which source expression feeds which field is what matters) -/
+    because their order is irrelevant in Rust - which source expression feeds which field is what matters;
+    expressions in the translator's canonical spelling: the receiver a field is read from (`req.`, `result.`)
+    and `.clone()` are dropped, `i64::from(x)` is written `x as i64`, a constant is replaced by its value and a
+    local bound to `SystemTime::now()` by that call) -/
 
 theorem C12_tie_types_response : Gen.TYPES_RESPONSE_MAP =
-    [("allowed", "allowed"), ("limit", "result.limit"), ("remaining", "result.remaining"),
-     ("reset_after", "result.reset_after.as_secs() as i64"), ("retry_after", "result.retry_after.as_secs() as i64")] := by decide
+    [("allowed", "allowed"), ("limit", "limit"), ("remaining", "remaining"),
+     ("reset_after", "reset_after.as_secs() as i64"), ("retry_after", "retry_after.as_secs() as i64")] := by decide
 
 theorem C12_tie_grpc_response : Gen.GRPC_RESPONSE_MAP =
-    [("allowed", "result.allowed"), ("limit", "result.limit as i32"), ("remaining", "result.remaining as i32"),
-     ("reset_after", "result.reset_after as i32"), ("retry_after", "result.retry_after as i32")] := by decide
+    [("allowed", "allowed"), ("limit", "limit as i32"), ("remaining", "remaining as i32"),
+     ("reset_after", "reset_after as i32"), ("retry_after", "retry_after as i32")] := by decide
 
 theorem C12_tie_grpc_request : Gen.GRPC_REQUEST_MAP =
-    [("count_per_period", "req.count_per_period as i64"), ("key", "req.key.clone()"), ("max_burst", "req.max_burst as i64"),
-     ("period", "req.period as i64"), ("quantity", "req.quantity as i64"), ("timestamp", "timestamp")] := by decide
+    [("count_per_period", "count_per_period as i64"), ("key", "key"), ("max_burst", "max_burst as i64"),
+     ("period", "period as i64"), ("quantity", "quantity as i64"), ("timestamp", "SystemTime::now()")] := by decide
 
 theorem C12_tie_http_request : Gen.HTTP_REQUEST_MAP =
-    [("count_per_period", "req.count_per_period"), ("key", "req.key.clone()"), ("max_burst", "req.max_burst"),
-     ("period", "req.period"), ("quantity", "req.quantity.unwrap_or(1)"), ("timestamp", "timestamp")] := by decide
+    [("count_per_period", "count_per_period"), ("key", "key"), ("max_burst", "max_burst"),
+     ("period", "period"), ("quantity", "quantity.unwrap_or(1)"), ("timestamp", "SystemTime::now()")] := by decide
 
 /-- documented gRPC field numbers: allowed=1, limit=2, remaining=3, retry_after=4, reset_after=5 -/
 theorem C12_grpc_field_numbers :
